@@ -122,7 +122,7 @@ def strategy(spec, ctx):
     return st.fixed_dictionaries({
         'tree': dsl.tree_strategy(feats, max_leaves=5),
         'tseed': st.integers(0, 2 ** 16),
-        'ops': st.lists(op, min_size=4, max_size=30),
+        'ops': st.one_of(st.lists(op, min_size=4, max_size=30), st.lists(op, min_size=4, max_size=30), st.lists(op, min_size=30, max_size=80)),
         'xt': st.lists(st.text(st.sampled_from(list('ab \n\n.1-_Aé')), max_size=12), max_size=2),
     })
 
